@@ -73,6 +73,26 @@ def jitter_bad(pid, ob, call, res):
     return False
 
 
+_JP = {}
+
+
+def jump_target(ob):
+    """(generator type, 'jump'|'long_jump', reference polynomial words) when the obligation belongs to a jump function of the xoshiro unit."""
+    import re, importlib.util
+    m = re.search(r'impl@(Xo(?:ro)?shiro\d+\w+?)::(long_jump|jump)\b', ob.fn or '') or re.search(r'impl@(Xo(?:ro)?shiro\d+\w+?)::(long_jump|jump)\b', ob.id)
+    if not m:
+        return None
+    gen, which = m.group(1), m.group(2)
+    eng = {'Xoroshiro128Plus': 'xoro128a', 'Xoroshiro128StarStar': 'xoro128a', 'Xoroshiro128PlusPlus': 'xoro128b'}.get(gen) or \
+        ('xosh128' if '128' in gen else 'xosh256' if '256' in gen else 'xosh512')
+    if not _JP:
+        spec = importlib.util.spec_from_file_location('jumppoly', os.path.join(ROOT, 'tools', 'jumppoly.py'))
+        jp = importlib.util.module_from_spec(spec)
+        spec.loader.exec_module(jp)
+        _JP.update(jp.compute())
+    return gen, which, _JP[eng][which]['words']
+
+
 def search(pid, ob, seed):
     if ob.backend in ('replay-differential', 'replay-sweep'):
         for d in ob.detail or []:
@@ -88,6 +108,20 @@ def search(pid, ob, seed):
         if pb.strip():
             return dict(kind='kani_harness', harness=ob.id.split(':', 1)[1], location=ob.fn, concrete_playback=pb[:6000],
                         explanation='values of the symbolic inputs on which the assertion of the harness fails; `./check --replay` re-runs the harness on the current tree')
+        return None
+    jm = jump_target(ob)
+    if pid == 'C06' and jm:
+        # the real jump()/long_jump() against J_ref(T) applied to the same state (J_ref: tools/jumppoly.py, confirmed by the verified checker)
+        build_replay()
+        gen, which, poly = jm
+        rnd = random.Random(seed + 5)
+        for k in range(8):
+            nbytes = {'128': 16, '256': 32, '512': 64}[''.join(c for c in gen if c.isdigit())]
+            sd = bytes([1] + [0] * (nbytes - 1)) if k == 0 else bytes(rnd.getrandbits(8) for _ in range(nbytes))
+            res = run_replay(['jump', gen, which, sd.hex(), ','.join(str(x) for x in poly)], timeout=60)
+            if 'MISMATCH' in res or 'RESULT panic' in res:
+                return dict(kind='jump_diff', generator=gen, call=which, seed_hex=sd.hex(), poly=poly, observed=res,
+                            explanation='%s::from_seed(seed).%s(): the state afterwards differs from J_ref(T) applied to the state before (T = the real native step, state observed through serde)' % (gen, which))
         return None
     unit = (ob.id.split('.')[0] if '.' in ob.id.split('#')[0].split('::')[0] else None)
     in_jitter = ob.id.startswith('jitter.') or 'JitterRng' in ob.fn or 'EcState' in ob.fn
@@ -147,6 +181,23 @@ def replay(rec):
                     return 1 if verdict == 'FAILED' else 0
         print('harness not found: ' + ce['harness'])
         return 2
+    if ce['kind'] == 'isaac_diff':
+        build_replay()
+        res = run_replay(['isaac-diff', ce.get('blocks', 20000)], timeout=900)
+        print('recorded : ' + ce['observed'])
+        print('observed : ' + res)
+        bad = 'MISMATCH' in res or 'RESULT panic' in res
+        print('the violation %s' % ('REPRODUCES' if bad else 'does not reproduce on the current tree'))
+        return 1 if bad else 0
+    if ce['kind'] == 'jump_diff':
+        build_replay()
+        res = run_replay(['jump', ce['generator'], ce['call'], ce['seed_hex'], ','.join(str(x) for x in ce['poly'])], timeout=60)
+        print('replaying on the real code: %s::from_seed(%s).%s()' % (ce['generator'], ce['seed_hex'], ce['call']))
+        print('recorded : ' + ce['observed'])
+        print('observed : ' + res)
+        bad = 'MISMATCH' in res or 'RESULT panic' in res
+        print('the violation %s' % ('REPRODUCES' if bad else 'does not reproduce on the current tree'))
+        return 1 if bad else 0
     if ce['kind'] == 'jitter_timer_script':
         build_replay()
         res = run_replay(['jitter', ce['call'], ce['rounds'], ce['base'], ','.join(str(d) for d in ce['deltas'])])
@@ -265,5 +316,27 @@ def isaac_serde_sweep_part():
                      text=res, detail=[dict(message=res, rendered=res, failing_input=fi)] if bad else [],
                      bounded='3 seeds x 2 blocks x 261 word offsets x {0,1,2} preceding next_u32 calls, 5 continuation patterns of 300 calls each'))
     pr.cmd = 'rngs-replay serde-positions'
+    pr.wall_s = _t.time() - t0
+    return pr
+
+
+def isaac_diff_part(blocks=20000):
+    """C03 fallback / thorough-tier exploration: the real IsaacRng and Isaac64Rng against a plain transcription of Jenkins' reference
+    code, 12 seeds x `blocks` blocks each (rare data-dependent coincidences, about 2^-16 per step, need long runs).  Bounded: agreeing
+    runs prove nothing."""
+    from .parts import PartResult, Ob, DISCHARGED, FAILED
+    import time as _t
+    pr = PartResult('diff:isaac')
+    t0 = _t.time()
+    build_replay()
+    res = run_replay(['isaac-diff', blocks], timeout=900)
+    bad = 'MISMATCH' in res or 'RESULT panic' in res
+    if not bad and not res.startswith('RESULT ok'):
+        pr.undecided.append('isaac-diff did not complete: ' + res[:200])     # timeout / no output: not a verdict
+    fi = dict(kind='isaac_diff', blocks=blocks, observed=res, explanation='native differential run on the real rand_isaac crate (dev profile) against a transcription of rand.c / isaac64.c')
+    pr.obs.append(Ob('diff:isaac:C03', ['C03'], FAILED if bad else DISCHARGED, 'replay-differential', fn='rand_isaac::{IsaacRng, Isaac64Rng} (public API)', kind='differential',
+                     text=res, detail=[dict(message=res, rendered=res, failing_input=fi)] if bad else [],
+                     bounded='exploration: 12 seeds x %d blocks x 2 generators' % blocks))
+    pr.cmd = 'rngs-replay isaac-diff %d' % blocks
     pr.wall_s = _t.time() - t0
     return pr
